@@ -65,6 +65,27 @@ def qline(kind, s, i):
     return f"parseall1 0{sp}"
 
 
+def _descending(kinds, sources):
+    """requests at every offset of every source, from the last offset down to 0, then upwards again: a later-offset entry of a
+    repetition's cache is there before the request at an earlier offset that could reuse it"""
+    reqs = []
+    for s in sources:
+        for i in list(range(len(s), -1, -1)) + list(range(len(s) + 1)):
+            for k in kinds:
+                reqs.append((k, s, i))
+    return reqs
+
+
+# ambiguous repetitions: several derivations per end; which one is returned must not depend on what is cached
+PRESETS = [
+    ([("r0", ("rep", 0, None, ("alt", [("lit", "a", False), ("lit", "aa", False)], False)), None)], ["aaaa", "aaaaa"]),
+    ([("r0", ("cat", [("ref", 1), ("rep", 0, None, ("lit", "a", False))]), None),
+      ("r1", ("rep", 0, None, ("alt", [("lit", "aa", False), ("lit", "a", False)], False)), None)], ["aaa", "aaaa"]),
+    ([("r0", ("rep", 0, None, ("alt", [("lit", "ab", False), ("lit", "a", False), ("lit", "b", False)], False)), None)], ["abab", "aabb"]),
+    ([("r0", ("rep", 1, None, ("ref", 1)), None), ("r1", ("alt", [("rep", 1, 2, ("lit", "b", False)), ("lit", "bb", False)], False), None)], ["bbbb"]),
+]
+
+
 def run(ctx):
     P = lib.import_repo()
     cc.proof_part(ctx)
@@ -81,15 +102,21 @@ def run(ctx):
     slow_skipped = 0
     samples = []
     try:
-        for gi in range(n_gr):
-            gr = gg.grammar(depth=3)
-            strings = G.strings_for(rng, gr, 5, maxlen=8)
-            # sources sharing offsets/suffixes
-            strings += [s[1:] for s in strings[:2] if len(s) > 1] + [s + s[:2] for s in strings[:2]]
-            reqs = []
-            for _ in range(rng.randint(8, 30)):
-                s = rng.choice(strings)
-                reqs.append((rng.choice(["lparse", "lparse", "parse", "parse_all"]), s, rng.randint(0, len(s))))
+        for gi in range(n_gr + len(PRESETS)):
+            if gi < len(PRESETS):
+                gr, strings = PRESETS[gi]
+                reqs = _descending(["parse", "lparse"], strings)
+            else:
+                gr = gg.grammar(depth=3)
+                strings = G.strings_for(rng, gr, 5, maxlen=8)
+                # sources sharing offsets/suffixes
+                strings += [s[1:] for s in strings[:2] if len(s) > 1] + [s + s[:2] for s in strings[:2]]
+                reqs = []
+                for _ in range(rng.randint(8, 30)):
+                    s = rng.choice(strings)
+                    reqs.append((rng.choice(["lparse", "lparse", "parse", "parse_all"]), s, rng.randint(0, len(s))))
+                if gi % 5 == 0:
+                    reqs += _descending(["parse"], strings[:2])
             # cold, unlimited twin: caches cleared before every request
             P.ParseCache.max_cache_size = None
             cls0, rules0 = G.build(P, gr)
